@@ -505,6 +505,15 @@ func init() {
 			if iv, ok := v.(*IfaceV); ok {
 				return []Value{iv}
 			}
+			if p, ok := v.(*PtrV); ok && p.Elem != nil {
+				// a pointer result seen as `any`: same construction as MakeInterface
+				tid := typeID(types.NewPointer(p.Elem))
+				h := Const(64, 0)
+				if p.Obj != nil {
+					h = Const(64, uint64(p.Obj.ID))
+				}
+				return []Value{&IfaceV{Type: Const(32, uint64(tid)), Handle: h, Static: types.NewInterfaceType(nil, nil), alts: map[int]Value{tid: p}}}
+			}
 			unsup("logRetAny of %T", v)
 			return nil
 		},
@@ -553,6 +562,18 @@ func init() {
 				return []Value{s.freshVar("logarg", BV(64))}
 			}
 			return []Value{e.Args[k.Val]}
+		},
+		"logArgBool": func(s *State, fn *ssa.Function, args []Value, where string) []Value {
+			e := s.logEntry(args[0])
+			k := asTerm(args[1])
+			if !k.IsConst() || int(k.Val) >= len(e.Args) {
+				return []Value{s.freshVar("logarg", BoolSort)}
+			}
+			t, ok := e.Args[k.Val].(*Term)
+			if !ok || t.Sort.Kind != KBool {
+				unsup("logArgBool: argument %d is not a bool", k.Val)
+			}
+			return []Value{t}
 		},
 		// --- SHA-256 as an uninterpreted absorbing function
 		"shaInit": func(s *State, fn *ssa.Function, args []Value, where string) []Value {
